@@ -920,6 +920,10 @@ func (x *World) listAll() []ecs.Entity {
 	q := x.w.Query(ecs.All())
 	for q.Next() {
 		res = append(res, q.Entity())
+		if len(res) > maxQueryLen {
+			q.Close()
+			break
+		}
 	}
 	return res
 }
